@@ -13,7 +13,7 @@
     - [RLogDom] : logs are real logarithms ([ln], [exp], [+], [-]) -- the code as written;
       [LinDom N] : the linear representation evaluated on [Q] and on binary64. *)
 From Coq Require Import List ZArith QArith Reals Rpower Lra.
-From TsdateV Require Import lib.Num model.Prior model.Kingman proofs.PriorMarg proofs.PriorKingman.
+From TsdateV Require Import lib.Num model.Prior model.Kingman proofs.PriorMarg proofs.PriorWeights proofs.PriorKingman.
 Import ListNotations.
 
 (** [_marginalize_over_ancestors], as written (log space, real ln/exp), for every
@@ -44,6 +44,16 @@ Theorem C14_variance_closed_form : forall n k : nat, (2 <= k <= n)%nat ->
     else EW n k (fun a => Hvar n a + Hmean n a * Hmean n a) - EW n k (Hmean n) * EW n k (Hmean n))%R.
 Proof. exact ccv_at_log_closed_form. Qed.
 Print Assumptions C14_variance_closed_form.
+
+(** for all n and 2 <= k < n: the level weights are positive, sum to one (a probability
+    distribution over the levels a = 2 .. n-k+1), and the mean age under them is exactly the
+    stored closed form tau_expect(k, n) = (k - 1)/n -- so the stored mean and the stored
+    variance are moments of one and the same mixture *)
+Theorem C14_weights_distribution_and_mean : forall n k : nat, (2 <= k)%nat -> (k + 1 <= n)%nat ->
+  (forall a, (2 <= a)%nat -> (a + k <= n + 1)%nat -> 0 < W n k a)%R /\
+  EW n k (fun _ => 1%R) = 1%R /\ EW n k (Hmean n) = tau_expect RNum k n.
+Proof. exact weights_distribution. Qed.
+Print Assumptions C14_weights_distribution_and_mean.
 
 (** the MRCA row: the stored mean [tau_expect(n, n) = 2 (1 - 1/n)] is the hypoexponential
     mean of the full height, and [tau_var_mrca(n)] its variance (= the k = n entry above) *)
